@@ -13,6 +13,7 @@ RULE = ("Monitor 1 (activation tap): every scan_node activation receives depth_l
         "child list of tree(k) must be an order-preserving sub-list of that of tree(k+1). Workloads: synthetic registries "
         "incl. self-reproducing decoders (every decoded value decodable again) with k up to 12, complete small scopes with "
         "k in 0..3, default registry on layered stacks of height <= 24 and other inputs with k in -5..12. "
+        "'synth-wide' shard: synthetic registries with 300..25000 one-byte decodable fragments in one text, each three decodings deep, k = 1..5 (up to 75001 searches per scan: per-scan / per-scanner budgets); random registries list the same decoder object twice 12 % of the time. "
         "distinct_nontrivial = distinct cases with a non-empty result.")
 ASSUMPTIONS = ["pairs are only compared when the hit stream of the k-run is well formed"]
 EXPECTED_WALL = {"quick": 60, "thorough": 500}
